@@ -412,8 +412,10 @@ structure TaperData (K : Type) where
   back : Bool
 
 inductive Call (K : Type)
-  /-- `cls(Empirical1D, points=x, lookup_table=y, keep_neg=…, meta=d)` with caller-owned `x`, `y`, `d` -/
+  /-- `cls(Empirical1D, points=x, lookup_table=y, keep_neg=…, meta=d)` with caller-owned `x`, `y`, `d`;
+  `fillZero`: the keyword `fill_value=0` is given as well (no extrapolation) -/
   | newEmpirical (kind : Kind) (x y : Nat) (xconv yconv : List K) (keepNeg : Bool) (md : Option Nat)
+      (fillZero : Bool)
   /-- `cls(Box1D | ConstFlux1D | Gaussian1D | …, parameters)` -/
   | newAnalytic (kind : Kind) (l : Leaf K)
   /-- `SourceSpectrum(BlackBody1D, temperature=T)`; `label`: the text `'bb({0})'.format(T)` the model
@@ -495,7 +497,7 @@ internal unit (as found); the repaired code copies `y` first when something has 
 A one-point table then fails in `is_tapered` (`[::size-1]`, step 0 → `ValueError`) — after the
 store. -/
 def newEmpirical (fx : Fixes) (h : Heap K) (kind : Kind) (x y : Nat) (xconv yconv : List K)
-    (keepNeg : Bool) (md : Option Nat) : List (Effect K) × Outcome K :=
+    (keepNeg : Bool) (md : Option Nat) (fillZero : Bool) : List (Effect K) × Outcome K :=
   match h.arrays[x]?, h.arrays[y]? with
   | some cx, some cy =>
     let xd := cellData cx xconv
@@ -523,7 +525,9 @@ def newEmpirical (fx : Fixes) (h : Heap K) (kind : Kind) (x y : Nat) (xconv ycon
       if cy.container.aliased then (if doClip && fx.copyBeforeClip then n1 else y) else n1
     if yd.length = 1 then (ex ++ ey, .err .valueError) else
     let tcell : TableCell :=
-      { pts := xref, vals := yref, rev := isDesc xd, keepNeg := keepNeg, fillNaN := !endsZero yFinal }
+      { pts := xref, vals := yref, rev := isDesc xd, keepNeg := keepNeg,
+        -- tapered: `kwargs.get('fill_value', 0)`, otherwise `kwargs.get('fill_value', np.nan)`
+        fillNaN := !fillZero && !endsZero yFinal }
     let entries : Dict := match md with
       | some d => (h.dicts[d]?).getD []
       | none => []
@@ -886,7 +890,7 @@ def sampleCall (fx : Fixes) (env : HEnv K) (h : Heap K) (o w : Nat) (conv : List
 
 /-- **the effects of a call, computed from the pre-state**, and its outcome -/
 def effects (fx : Fixes) (env : HEnv K) (h : Heap K) : Call K → List (Effect K) × Outcome K
-  | .newEmpirical kind x y xc yc keep md => newEmpirical fx h kind x y xc yc keep md
+  | .newEmpirical kind x y xc yc keep md f0 => newEmpirical fx h kind x y xc yc keep md f0
   | .newAnalytic kind l => ([.allocObj (freshObj kind (.ana l) Meta.empty)], .ok (.obj h.objs.length))
   | .newBlackBody temp label =>
       ([.allocObj (freshObj .source (.bb temp) ⟨[], [("expr", label)]⟩)], .ok (.obj h.objs.length))
@@ -960,7 +964,7 @@ def errLocs (fx : Fixes) (h : Heap K) (o : Nat) : List Loc :=
 /-- **the undocumented writes** of the code selected by `fx` (empty for `Fixes.repaired`):
 the caller's `lookup_table` buffer, the caller's `ext_header`, `np.geterr()` -/
 def hidden (fx : Fixes) (h : Heap K) : Call K → List Loc
-  | .newEmpirical _ _ y _ _ keep _ =>
+  | .newEmpirical _ _ y _ _ keep _ _ =>
       if !fx.copyBeforeClip && !keep then
         match h.arrays[y]? with
         | some cy => if cy.container.aliased && cy.data.any (fun v => decide (v < 0)) then [.arr y] else []
